@@ -136,6 +136,7 @@ def parseSeqEnv (s : String) : Option Env :=
     let m ← parseHex m; let d ← parseHex d
     let kvs : List KV := if mt == "1" then [⟨[107], [118]⟩] else if mt == "2" then [⟨[107,45,98,105,110], [33,33]⟩]
       else if mt == "3" then [⟨[75,45,66,105,110], [33,33]⟩]  -- "K-Bin": the suffix test is on the lower-cased key
+      else if mt == "4" then [⟨[103,114,112,99,45,116,105,109,101,111,117,116], [53,120]⟩]  -- grpc-timeout: "5x" (malformed: ignored)
       else []
     some { id := id,
            header := if hd == "1" then some { method := m, dst := d, src := [99], headers := kvs } else none,
